@@ -1,5 +1,6 @@
 (* C19 — Subscribers get exactly their matching events; searches return exact matches.
-   Property theorems only; proofs are in Proofs.v (pub/sub) and SearchProofs.v (indexer).
+   Property theorems only; proofs are in Proofs.v (pub/sub), SearchProofs.v (transaction
+   indexer) and BlockProofs.v (block indexer).
 
    Pub/sub half.  [run Q ord ops] is the state of the pubsub Server (Server.subscriptions, the
    loop's two tables, every Subscription handed out) after the history [ops] of
@@ -7,8 +8,9 @@
    query behind each query string and [ord] the iteration order of every `range` over a Go
    map (ANY family of permutations, possibly different at every publication).  The model is of
    the send loop as repaired for finding F10. *)
-From Coq Require Import String List ZArith Bool Arith Permutation.
+From Coq Require Import String List ZArith Bool Arith Permutation Sorted.
 From TM Require Import C19.Query C19.Model C19.Proofs C19.SearchModel C19.SearchProofs.
+From TM Require Import C19.BlockModel C19.BlockProofs.
 Import ListNotations.
 Local Open Scope nat_scope.
 
@@ -128,6 +130,71 @@ Print Assumptions C19_search_exact_partial.
    C19_search_slash_refuted, C19_search_numeric_refuted, C19_search_hash_shortcut_refuted,
    C19_search_merged_ranges_refuted, C19_search_merged_ranges_multivalued_refuted,
    C19_search_time_refuted, C19_search_exists_undotted_refuted. *)
+
+(* ------------------------------------------------------------------ block indexer half
+   (state/indexer/block/kv; model in BlockModel.v: the store is the list of (key, height)
+   entries, a key being the orderedcode tuple itself: [PK h] = (block.height, h) or
+   [EK type.attr value h begin_block|end_block]; Search as repaired for finding F47). *)
+
+(* 7. After ANY history of Index calls (blocks rejected for the reserved key block.height and
+   re-indexed heights included): every key is in the store once; a key is there, with value h,
+   exactly when it is a key of a block of height h whose Index returned nil — its primary key or
+   the key of one of its BeginBlock / EndBlock attributes with Index=true, non-empty type and
+   key; Has(h) answers exactly "some Index of a block of height h returned nil". *)
+Theorem C19_block_indexed_once : forall hist : list block,
+  let st := brun hist in
+  NoDup (map fst st) /\
+  (forall k x, In (k, x) st <->
+     exists b, In b hist /\ index_ok b = true /\ x = b_height b /\ In k (bkeys b)) /\
+  (forall h, bhas st h = true <-> exists b, In b hist /\ index_ok b = true /\ b_height b = h).
+Proof. exact BlockProofs.C19_block_indexed_once. Qed.
+Print Assumptions C19_block_indexed_once.
+
+(* 8. PARTIAL.  Full statement: for every history in which a height is indexed once or
+   re-indexed with the same events, and EVERY query of the language without TIME / DATE
+   operands, undotted EXISTS, string comparisons of block.height, with integer conditions only
+   on keys whose indexed values are canonical decimals and at most one lower and one upper
+   bound per key (both only on single-valued keys): Search returns, strictly ascending,
+   exactly the heights of the indexed blocks whose event map satisfies the pub/sub matcher.
+   Proved here: the same with at most ONE range condition (< <= > >=) per key — i.e. the whole
+   language of = 'string', = integer, CONTAINS, dotted EXISTS, one-sided integer ranges,
+   block.height conditions of all these kinds included, in any order and number, with both
+   loops of Search, the first-run / empty-set short-cuts, the Has filter and the sort.
+   Two-sided ranges on one key are modelled and checked by the differential run only.
+   Premises: BConsistent (blocks of one height carry the same indexed attributes), bwf_cond
+   (string conditions not on block.height; integer conditions on BNumKey keys: the indexed
+   values are decimal renderings on which matcher and indexer agree), one_range_per_key. *)
+Theorem C19_block_search_exact_partial : forall (hist : list block) (q : query),
+  BConsistent hist ->
+  q <> [] ->
+  (forall c, In c q -> bwf_cond hist c) ->
+  one_range_per_key q ->
+  exists hs, bsearch (brun hist) q = BOk hs /\ StronglySorted Z.lt hs /\
+    forall h, In h hs <->
+      exists b, In b hist /\ index_ok b = true /\ b_height b = h /\
+                matches q (blk_events b) = MTrue.
+Proof. exact BlockProofs.C19_block_search_exact_partial. Qed.
+Print Assumptions C19_block_search_exact_partial.
+(* non-vacuity, the original Search and the refutations outside the premises (F47; classes
+   25, 34, 36, 37, 38): BlockProofs.C19_block_indexed_once_nonvacuous,
+   C19_block_search_exact_nonvacuous (restated below), C19_block_original_height_shortcut_refuted,
+   C19_block_search_merged_ranges_refuted, C19_block_search_height_as_string_refuted,
+   C19_block_search_time_refuted, C19_block_search_numeric_refuted,
+   C19_block_search_exists_undotted_refuted. *)
+
+Example C19_block_search_exact_nonvacuous :
+  BConsistent bnv_hist /\ bnv_q <> [] /\
+  (forall c, In c bnv_q -> bwf_cond bnv_hist c) /\ one_range_per_key bnv_q /\
+  bsearch (brun bnv_hist) bnv_q = BOk [1%Z] /\
+  bsat bnv_q bnv_b1 = true /\ bsat bnv_q bnv_b2 = false /\ bsat bnv_q bnv_b4 = false.
+Proof. pose proof BlockProofs.C19_block_search_exact_nonvacuous as H. intuition. Qed.
+
+(* F47: on the ORIGINAL Search a block.height = H condition short-cut the whole query *)
+Example C19_block_original_search_refuted :
+  let q := [Build_cond "block.height" OpEq (OInt 2); Build_cond "a.y" OpEq (OStr "q")] in
+  bsearch_original (brun bnv_hist) q = BOk [2%Z] /\ bsat q bnv_b2 = false /\
+  bsearch (brun bnv_hist) q = BOk [].
+Proof. vm_compute. auto. Qed.
 
 (* ------------------------------------------------------------------ non-vacuity *)
 
